@@ -22,6 +22,7 @@ from ..compare import equal, outcome, brief
 from ..domains import (adj, all_graphs, iso, weights, link_attr,
                        ordered_group_pairs, is_connected)
 from ..refmodel import interacting as R
+from ..refmodel import netrepr as NR
 
 LEVEL = "exploration"
 ATTR = "w"
@@ -40,9 +41,9 @@ class Env:
     def __init__(self, n, directed, mask, wk):
         from pyunicorn.core import InteractingNetworks
         self.n, self.directed = n, bool(directed)
-        An = adj(n, directed, mask)
+        An = NR.adjacency_of(n, directed, mask)
         self.A = An.tolist()
-        w = weights(n, wk)
+        w = NR.node_weights_of(n, wk)
         self.w = [1.0] * n if w is None else [float(x) for x in w]
         Wn = link_attr(An)
         if directed:
@@ -72,9 +73,21 @@ class Env:
 
     def dist(self, attr=None):
         if attr not in self._D:
-            self._D[attr] = R.distances(self.A,
-                                        None if attr is None else self.W)
+            f = R.distances if self.n <= 24 else R.distances_np
+            self._D[attr] = f(self.A, None if attr is None else self.W)
         return self._D[attr]
+
+    def betw(self, L1, L2, w=None):
+        """Path enumeration on small networks; the path-count evaluator on
+        large ones, cross-checked against the enumeration where that is
+        still affordable (a disagreement is a harness error)."""
+        if self.n <= 8:
+            return R.betweenness(self.A, self.dist(), L1, L2, w)
+        fast = R.betweenness_counts(self.A, self.dist(), L1, L2, w)
+        if self.n <= 30:
+            slow = R.betweenness(self.A, self.dist(), L1, L2, w)
+            assert equal(fast, slow), "oracle evaluators disagree"
+        return fast
 
     def mat(self, attr):
         return self.A if attr is None else self.W
@@ -191,7 +204,7 @@ def p_global_efficiency(E, L1, L2, a):
 
 def p_cross_betweenness(E, L1, L2, a):
     _undirected(E)
-    return R.betweenness(E.A, E.dist(), L1, L2)
+    return E.betw(L1, L2)
 
 
 def p_nsi_cross_degree(E, L1, L2, a):
@@ -231,7 +244,7 @@ def p_nsi_cross_closeness_centrality(E, L1, L2, a):
 
 def p_nsi_cross_betweenness(E, L1, L2, a):
     _undirected(E)
-    return R.betweenness(E.A, E.dist(), L1, L2, E.w)
+    return E.betw(L1, L2, E.w)
 
 
 def p_nsi_cross_edge_density(E, L1, L2, a):
@@ -338,7 +351,7 @@ def s_internal_closeness(E, L, a):
 
 def s_internal_betweenness(E, L, a):
     _undirected(E)
-    return R.betweenness(E.A, E.dist(), L, L)
+    return E.betw(L, L)
 
 
 def s_nsi_internal_degree(E, L, a):
@@ -518,6 +531,12 @@ def _rows_apl(B, internal):
     return sum(vals) / len(vals)
 
 
+def _only_attr(a, E):
+    if a is None or E.directed:
+        raise KeyError("rule applies to undirected strengths only")
+    return True
+
+
 DERIVED = {
     "average_cross_closeness": (
         ["cross_closeness"],
@@ -531,6 +550,15 @@ DERIVED = {
         ["cross_outdegree", "cross_indegree"],
         lambda E, lib, a, L: np.asarray(lib("cross_outdegree", a)) + (
             np.asarray(lib("cross_indegree", a)) if E.directed else 0)),
+    # strengths are sums over the link-attribute block (undirected: W = W^T)
+    "cross_outdegree": (
+        ["cross_link_attribute"],
+        lambda E, lib, a, L: _only_attr(a, E) and np.sum(
+            lib("cross_link_attribute"), axis=1)),
+    "cross_indegree": (
+        ["cross_link_attribute"],
+        lambda E, lib, a, L: _only_attr(a, E) and np.sum(
+            lib("cross_link_attribute"), axis=1)),
     "cross_global_clustering": (
         ["cross_local_clustering"],
         lambda E, lib, a, L: np.mean(lib("cross_local_clustering"))),
@@ -975,10 +1003,10 @@ def fam_coupled(case):
     from pyunicorn.climate import CoupledClimateNetwork
     viol, excluded, sig = [], {}, []
     ev = 0
-    A = adj(n, False, mask)
+    A = NR.adjacency_of(n, False, mask)
 
     def grid(k, off):
-        return GeoGrid(np.arange(3.), 5.0 * np.arange(k) + off,
+        return GeoGrid(np.arange(3.), off + 40.0 * np.arange(k) / max(k, 1),
                        7.0 * np.arange(k) + off, silence_level=3)
     S = 0.9 * A + np.eye(n)
     c = CoupledClimateNetwork(grid(n1, 0.0), grid(n - n1, 40.0), S,
@@ -1067,8 +1095,87 @@ def fam_coupled(case):
             "trivial": False, "sig": str(sig)}
 
 
+# ---------------------------------------------------------------------------
+# family: the same judgements on larger structured networks - node groups of
+# 7..12 nodes in unsorted order on graphs with 16..30 nodes (ring with chords,
+# two communities, a disconnected pair with interleaved labels), and networks
+# with N >= 182 (flat index i*N+j >= 32768) whose groups contain the last nodes
+
+
+def _grp(nodes, k, start=0, stride=3):
+    """k nodes of `nodes` in a deterministic unsorted order."""
+    nodes = list(nodes)
+    m = len(nodes)
+    out, i = [], start
+    while len(out) < k:
+        v = nodes[i % m]
+        if v not in out:
+            out.append(v)
+        i += stride if (len(out) % 4) else stride + 1
+    return out
+
+
+def _scale_cases(thorough):
+    out = []
+
+    def both(n, kind, wk, L1, L2):
+        out.append(("cross", n, kind, wk, L1, L2))
+        out.append(("internal", n, kind, wk, L1))
+        out.append(("internal", n, kind, wk, L2))
+    # ring with chords, 16 nodes, groups 7 / 8
+    both(16, "ring-chords", 1, _grp(range(0, 9), 7, 2, 5),
+         _grp(range(9, 16), 7, 1, 2) + [4])
+    # two communities: the groups are (parts of) the communities, 8 / 10
+    both(20, "two-communities", 2, _grp(range(0, 10), 8, 3),
+         _grp(range(10, 20), 10, 1))
+    # ... and groups that cut across the communities, 9 / 9
+    both(20, "two-communities", 1, _grp(range(0, 20, 2), 9, 1),
+         _grp(range(1, 20, 2), 9, 4))
+    # disconnected pair (components on even / odd labels): no path at all
+    both(24, "disconnected-pair", 1, _grp(range(0, 24, 2), 7, 2),
+         _grp(range(1, 24, 2), 9, 0))
+    # ... and groups that mix both components, 8 / 12
+    both(24, "disconnected-pair", 2, _grp(range(0, 12), 8, 1),
+         _grp(range(12, 24), 12, 5))
+    # ring with chords, 30 nodes, groups 12 / 12 and 7 / 11
+    both(30, "ring-chords", 2, _grp(range(0, 15), 12, 4),
+         _grp(range(15, 30), 12, 2))
+    both(30, "ring-chords", 1, _grp(range(0, 30, 3), 7, 1),
+         _grp(range(1, 30, 3), 8, 0) + [29, 27, 26])
+    # N >= 182: groups containing the highest-numbered nodes
+    for n in (182, 200) + ((260, 300) if thorough else ()):
+        both(n, "ring-chords", 1,
+             [n - 1, n - 3, 0, 5, n - 10, 3, n // 2],
+             [n - 2, n - 4, 1, n - 50, n - 18, n - 17, 60, 10])
+    if thorough:
+        both(40, "two-communities", 1, _grp(range(0, 20), 12, 1),
+             _grp(range(20, 40), 15, 3))
+        both(36, "disconnected-pair", 2, _grp(range(0, 36, 2), 11, 1),
+             _grp(range(1, 36, 2), 12, 2))
+    for n, kind, wk in ((16, "ring-chords", 1), (20, "two-communities", 2),
+                        (24, "disconnected-pair", 1),
+                        (30, "ring-chords", 2)):
+        out.append(("whole", n, kind, wk))
+    out.append(("coupled", 20, "two-communities", 8))
+    out.append(("coupled", 30, "ring-chords", 12))
+    out.append(("coupled", 24, "disconnected-pair", 9))
+    return [list(c) for c in out]
+
+
+def fam_scale(case):
+    fam, n, kind = case[0], case[1], case[2]
+    edges = NR.structured(kind, n)
+    if fam == "cross":
+        return fam_cross((n, False, edges, case[3], case[4], case[5]))
+    if fam == "internal":
+        return fam_internal((n, False, edges, case[3], case[4]))
+    if fam == "whole":
+        return fam_whole((n, False, edges, case[3]))
+    return fam_coupled((n, edges, case[3]))
+
+
 FAMILIES = {"cross": fam_cross, "internal": fam_internal,
-            "whole": fam_whole, "coupled": fam_coupled}
+            "whole": fam_whole, "coupled": fam_coupled, "scale": fam_scale}
 
 
 # ---------------------------------------------------------------------------
@@ -1163,6 +1270,11 @@ def run(ctx):
             for n1 in range(1, n):
                 cases.append((n, m, n1))
     ctx.explore("coupled", cases, desc="CoupledClimateNetwork wrappers")
+    scale = _scale_cases(thorough)
+    ctx.explore("scale", scale, chunk=1, desc="groups of 7..12 nodes in "
+                "unsorted order on structured graphs with 16..30 nodes; "
+                "N>=182 with groups at the last nodes")
+    ctx.notes["scale_inputs"] = scale
     ctx.notes["bound"] = ("undirected n<=4 labelled + iso(5)%s; directed "
                           "n<=3" % ("; iso(6) bipartitions" if thorough
                                     else ""))
@@ -1176,6 +1288,11 @@ def run(ctx):
         "on directed graphs only block matrices, degrees, link counts, path "
         "lengths, closeness and efficiency are judged (class docstring: "
         "other methods are meaningful for undirected networks only)",
+        "scale family: a fixed list of structured networks (16..30 nodes "
+        "with groups of 7..12 nodes; 182 and 200 nodes, thorough also 260 "
+        "and 300) judged by the same oracles; distances by a numpy "
+        "Floyd-Warshall, betweenness by path counts (cross-checked against "
+        "path enumeration up to 30 nodes); not exhaustive",
         "internal_(in/out)degree and subnetwork are held to the block "
         "matrices the library itself returns, so the list-order defect of "
         "internal_adjacency / internal_link_attribute keeps a single key "
